@@ -635,6 +635,95 @@ impl Engine {
 		}
 	}
 
+	/// Coverage-guided leg (thorough tier only): runs a cargo-fuzz target whose semantic oracle is
+	/// inside the target, for a fixed number of runs from a fresh corpus seeded with the committed
+	/// seed files. A crash is a violation; its artifact is the replay file.
+	pub fn fuzz_leg(&self, target: &str, runs: u64, max_len: u32, rule: &'static str) {
+		if self.replay.is_some() || self.tier != Tier::Thorough {
+			return;
+		}
+		let leg = format!("fuzz:{target}");
+		self.note_leg(&leg, rule);
+		let out = Path::new(VERIF_ROOT).join("out");
+		let corpus = out.join("fuzz-corpus").join(format!("{target}-{}", std::process::id()));
+		let _ = std::fs::remove_dir_all(&corpus);
+		let _ = std::fs::create_dir_all(&corpus);
+		let seeds = Path::new(VERIF_ROOT).join("fuzz").join("seeds").join(target);
+		let mut n_seeds = 0;
+		if let Ok(rd) = std::fs::read_dir(&seeds) {
+			for e in rd.flatten() {
+				if std::fs::copy(e.path(), corpus.join(e.file_name())).is_ok() {
+					n_seeds += 1;
+				}
+			}
+		}
+		let artifacts = out.join("fuzz-artifacts");
+		let _ = std::fs::create_dir_all(&artifacts);
+		let prefix = format!("{}/{}-{}-", artifacts.display(), self.id, target);
+		let res = std::process::Command::new("cargo")
+			.current_dir(Path::new(VERIF_ROOT).join("harness"))
+			.env("CARGO_NET_OFFLINE", "true")
+			.args(["+nightly", "fuzz", "run", "--fuzz-dir"])
+			.arg(Path::new(VERIF_ROOT).join("fuzz"))
+			.arg(target)
+			.arg(&corpus)
+			.arg("--")
+			.arg(format!("-runs={runs}"))
+			.arg(format!("-seed={}", (self.seed % 0xffff_fffe) + 1))
+			.arg("-len_control=0")
+			.arg(format!("-max_len={max_len}"))
+			.arg(format!("-artifact_prefix={prefix}"))
+			.output();
+		let _ = std::fs::remove_dir_all(&corpus);
+		let output = match res {
+			Ok(o) => o,
+			Err(e) => {
+				self.inconclusive(format!("cannot run cargo fuzz for {target}: {e}"));
+				return;
+			}
+		};
+		let text = String::from_utf8_lossy(&output.stderr).into_owned();
+		let done: u64 = text
+			.lines()
+			.rev()
+			.find_map(|l| l.strip_prefix("Done ").and_then(|r| r.split_whitespace().next()).and_then(|n| n.parse().ok()))
+			.unwrap_or(0);
+		let cov = text.lines().rev().find(|l| l.contains(" cov: ")).unwrap_or("").trim().to_string();
+		{
+			let mut legs = self.legs.lock().unwrap();
+			let st = legs.entry(leg.clone()).or_default();
+			st.evaluations = done as usize;
+			st.samples.push(json!({"fuzz_target": target, "runs_requested": runs, "runs_done": done, "seed_files": n_seeds, "last_status_line": cov}));
+		}
+		if !output.status.success() {
+			let artifact = text
+				.lines()
+				.find_map(|l| l.split("Test unit written to ").nth(1))
+				.map(|p| PathBuf::from(p.trim()));
+			let build_failed = text.contains("could not compile") || text.contains("error: failed to build");
+			if build_failed || artifact.is_none() {
+				self.inconclusive(format!("fuzz target {target} did not run to completion: {}", text.lines().rev().take(6).collect::<Vec<_>>().join(" | ")));
+				return;
+			}
+			let artifact = artifact.unwrap();
+			let panic_line = text.lines().find(|l| l.contains("panicked at")).unwrap_or("");
+			let msg: String = text.lines().filter(|l| l.contains("panicked") || l.starts_with("C1") || l.contains("left:") || l.contains("right:") || l.contains("ERROR: ")).take(12).collect::<Vec<_>>().join("\n");
+			println!("VIOLATION property={} replay={}", self.id, artifact.display());
+			println!("  leg={leg} signature=fuzz-crash:{target}");
+			for l in msg.lines() {
+				println!("  | {l}");
+			}
+			self.violations.lock().unwrap().push(Violation {
+				leg,
+				failure: Failure {
+					signature: format!("fuzz-crash:{target}"),
+					message: format!("{panic_line}\n{msg}"),
+				},
+				replay: artifact,
+			});
+		}
+	}
+
 	/// Require that a label appears in at least `min_frac` of a leg's evaluations;
 	/// otherwise the run is inconclusive (generator degenerate), never a pass.
 	pub fn require_label(&self, leg: &str, label: &str, min_frac: f64) {
@@ -728,7 +817,8 @@ impl Engine {
 			"violations": distinct_sigs.len(),
 		});
 		if self.replay.is_none() {
-			let dir = Path::new(VERIF_ROOT).join("evidence");
+			// VERIF_EVIDENCE_DIR lets a sanity run write its evidence elsewhere (never used by the registered commands)
+			let dir = std::env::var_os("VERIF_EVIDENCE_DIR").map_or_else(|| Path::new(VERIF_ROOT).join("evidence"), std::path::PathBuf::from);
 			let _ = std::fs::create_dir_all(&dir);
 			let path = dir.join(format!("{}.json", self.id));
 			if let Err(e) = std::fs::write(&path, serde_json::to_string_pretty(&ev).unwrap()) {
